@@ -77,6 +77,8 @@ pub enum K {
     Trunc2k,
     ApplyPermPublic,
     SortSmall,
+    CuckooToPerm,
+    DecomposeSwitch,
 }
 
 #[derive(Clone, Debug, Serialize, Deserialize, PartialEq, Eq, Hash)]
@@ -356,8 +358,19 @@ impl<'a> Builder<'a> {
                             let k = (s.p[2] as usize) % sv.len();
                             sv = sv[k..].to_vec();
                         }
+                        2 => {
+                            // a LARGER partner: a is the operand that gets broadcast
+                            let grow = 2 + (s.p[2] as u64 >> 4) % 3;
+                            if let Some(k) = sv.iter().position(|d| *d == 1) {
+                                sv[k] = grow;
+                            } else if sv.len() < 4 {
+                                sv.insert(0, grow);
+                            }
+                        }
                         _ => {}
                     }
+                } else if s.p[1] % 4 == 2 {
+                    sv = vec![2 + (s.p[2] as u64 >> 4) % 3];
                 }
                 let want = leaf_type(st, &sv);
                 let ib = self.partner(pool, s.b, s.p[0], seed, &want, &|t: &Type| {
@@ -866,6 +879,39 @@ impl<'a> Builder<'a> {
                 } else {
                     pool.nodes[ik].permutation_from_prf(iv, 1 + (s.p[2] % 6) as u64).ok().map(|n| pool.push(n))
                 }
+            }
+            K::CuckooToPerm => {
+                // a valid cuckoo table (constant): distinct indices < n-d plus d dummies (u64::MAX);
+                // CuckooToPermutation fills the dummies with a random arrangement of the rest
+                let n = 2 + (s.p[0] % 5) as usize;
+                let d = (s.p[1] as usize) % (n + 1);
+                let mut q = seed ^ 0xC0C0;
+                let mut idx: Vec<u128> = (0..(n - d) as u128).collect();
+                for i in (1..idx.len()).rev() {
+                    idx.swap(i, (splitmix(&mut q) % (i as u64 + 1)) as usize);
+                }
+                let mut table = vec![u64::MAX as u128; n];
+                let mut pos: Vec<usize> = (0..n).collect();
+                for i in (1..n).rev() {
+                    pos.swap(i, (splitmix(&mut q) % (i as u64 + 1)) as usize);
+                }
+                for (k, v) in idx.iter().enumerate() {
+                    table[pos[k]] = *v;
+                }
+                let t = array_type(vec![n as u64], UINT64);
+                let c = g.constant(t, Value::from_bytes(encode_leaf(&table, UINT64))).ok()?;
+                let ic = pool.push(c);
+                g.cuckoo_to_permutation(pool.nodes[ic].clone()).ok().map(|n| pool.push(n))
+            }
+            K::DecomposeSwitch => {
+                let n = 2 + (s.p[0] % 5) as u64;
+                let m = 1 + (s.p[1] as u64) % n;
+                let mut q = seed ^ 0xD5;
+                let map: Vec<u128> = (0..m).map(|_| (splitmix(&mut q) % n) as u128).collect();
+                let t = array_type(vec![m], UINT64);
+                let c = g.constant(t, Value::from_bytes(encode_leaf(&map, UINT64))).ok()?;
+                let ic = pool.push(c);
+                g.decompose_switching_map(pool.nodes[ic].clone(), n).ok().map(|n| pool.push(n))
             }
             K::Dup => {
                 // re-add an existing node: same operation, same dependencies
